@@ -48,6 +48,9 @@ class Check:
 
     def floor(self, rule, count, minimum, what):
         """fail closed when fewer instances than confirmed by hand were matched"""
+        if os.environ.get("VERIF_FLOORS"):
+            with open(os.environ["VERIF_FLOORS"], "a") as fh:
+                fh.write("%s\t%s\t%d\t%d\n" % (self.pid if hasattr(self, "pid") else "?", rule, count, minimum))
         self.ob(rule + "/floor", what, count >= minimum,
                 "matched %d instances of %s, expected at least %d (anchor lost: the rule would pass vacuously)" % (count, what, minimum))
 
